@@ -234,7 +234,7 @@ func init() {
 			map[string][]string{"auth-secret": {"auth", "auth", "auth", "auth2", "missing"}}},
 		{"ext-auth", []string{"auth-url", "oauth", "auth-external-placement"}, []string{"auth-proxy", "external-has-lua"}, map[string]int{"ing_ann": 16, "ing_create": 10, "ing_delete": 8, "global_change": 3},
 			map[string]string{"external-has-lua": "true", "auth-proxy": "_front__auth:14415-14419"},
-			map[string][]string{"auth-url": {"http://10.9.9.9:8000/auth", "http://10.9.9.8:8000/auth", "http://10.9.9.7:8001/check", "http://10.9.9.6:8002/x", "http://authhost.local/x", "svc://a/s2:80", "bad::url", "svc://missing:80"}}},
+			map[string][]string{"auth-url": {"http://10.9.9.9:8000/auth", "https://10.9.9.9:8000/auth", "http://10.9.9.8:8000/auth", "http://10.9.9.7:8001/check", "http://10.9.9.6:8002/x", "http://authhost.local/x", "svc://a/s2:80", "bad::url", "svc://missing:80"}}},
 		{"tcp", []string{"tcp-service-port"}, nil, map[string]int{"ing_update": 18, "ing_create": 10, "ing_delete": 8}, nil,
 			map[string][]string{"tcp-service-port": {"7000", "7000", "7000", "7001"}}},
 		{"tls", []string{"auth-tls-secret", "secure-crt-secret", "secure-verify-ca-secret", "secure-backends"}, nil, map[string]int{"secret_rotate": 12, "secret_delete": 6, "secret_create": 8, "secret_break": 3}, nil, nil},
@@ -436,6 +436,33 @@ func init() {
 				ValueOverrides: map[string][]string{"path-type": {"begin", "prefix", "exact"}},
 				GlobalKeys:     []string{"ssl-redirect", "drain-support", "timeout-client", "max-connections", "path-type-order"},
 				Hosts:          []string{"app.local", "api.local", "web.local", ""}, MinOps: mn, MaxOps: mx, QuiesceEvery: pickInt(r, 2, 4), KeysPerRun: 3, W: w, NoForeignClass: true})
+			return rc
+		}})
+
+	// histories in which a host/path is declared by two ingresses and the first-created one goes away: the
+	// survivor takes the path over. no_dup_paths is replaced by its narrowed form (the services behind a
+	// duplicated path are used by nothing else, so the recorded owner-change finding is not met). Seeded change C03-m9.
+	register(&Profile{Name: "routing-dup-owner", Prop: "C03", Weight: 1,
+		Oracles: OracleSet{Property: "C03", Routing: true},
+		Build: func(seed uint64, tier string) *RunConfig {
+			r := cfgRng(seed)
+			mn, mx := tierOps(tier, 6, 18)
+			ctl := sampleCtl(r)
+			if _, avoid := avoidFlags(); avoid["dedicated_default_service"] && ctl.DefaultService != "" {
+				ctl.DefaultService = "a/dflt"
+			}
+			rc := &RunConfig{Property: "C03", Profile: "routing-dup-owner", Seed: seed, Ctl: ctl, MapOrder: r.IntN(2) == 0, Lagfree: r.IntN(3) == 0, MidSched: r.IntN(2) == 0,
+				IgnoreAvoid: []string{"no_dup_paths"}, ExtraAvoid: []string{"dup_paths_exclusive_service"}}
+			w := map[string]int{}
+			for k, v := range defaultWeights {
+				w[k] = v
+			}
+			w["class_change"] = 0
+			w["ing_create"], w["ing_delete"], w["ing_update"] = 14, 12, 8
+			rc.World, rc.Ops = GenerateRun(seed, GenOptions{Sparse: true, IngressKeys: []string{"balance-algorithm", "timeout-server"},
+				GlobalKeys: []string{"ssl-redirect", "drain-support", "timeout-client"},
+				Hosts:      []string{"app.local", "api.local"}, Paths: []string{"/", "/app", "/api"}, MinOps: mn, MaxOps: mx, QuiesceEvery: pickInt(r, 2, 4), KeysPerRun: 2, W: w, NoForeignClass: true,
+				IgnoreAvoid: []string{"no_dup_paths"}, ExtraAvoid: []string{"dup_paths_exclusive_service"}, MaxIngresses: 6})
 			return rc
 		}})
 
